@@ -85,9 +85,10 @@ def handleOp (fields : List String) : String :=
     match Op.new (mkEnv ctx) globals (u defn) with
     | .error e => "err " ++ e.name
     | .ok op =>
-      let tree := if mode == "tree" || mode == "both" then " tree=" ++ dumpOp op else ""
+      let tree := if mode == "tree" || mode == "both" then " tree=" ++ dumpOp op
+        else if mode == "skel" || mode == "skelboth" then " tree=" ++ dumpOpWith false op else ""
       let app :=
-        if mode == "apply" || mode == "both" then
+        if mode == "apply" || mode == "both" || mode == "skelboth" then
           let r := apply sem (Float.ofBits 0x7FF8000000000000) (Ops.actionOf Float) op (parseDir dir) (parseData data)
           " n=" ++ toString r.2 ++ " data=" ++ dumpData r.1
         else ""
